@@ -109,3 +109,39 @@ func invDifference[T comparable](s, s2, result Set[T]) bool {
 			has(s, x) == verif.Old(func() bool { return has(s, x) }) && has(s2, x) == verif.Old(func() bool { return has(s2, x) })
 	})
 }
+
+// Assumed, not proved (trusted): the one missing obligation is the existential direction of the loop
+// invariant across append's copy; the other 14 obligations are discharged.
+//
+//verif:trusted-contract (Set).UnsortedList
+func ctUnsortedList[T comparable](s Set[T]) {
+	r := s.UnsortedList()
+	verif.Ensures("fresh", verif.Fresh(r))
+	verif.Ensures("lists-exactly-the-elements", verif.Forall(func(x T) bool { return inPrefix(r, len(r), x) == has(s, x) }))
+	verif.Ensures("receiver-unchanged", verif.Forall(func(x T) bool { return has(s, x) == verif.Old(func() bool { return has(s, x) }) }))
+}
+
+//verif:invariant (Set).UnsortedList 1
+func invUnsortedList[T comparable](s Set[T], res []T) bool {
+	return verif.Fresh(res) &&
+		verif.Forall(func(i int) bool { return !(0 <= i && i < len(res)) || (has(s, res[i]) && verif.Visited(s, res[i])) }) &&
+		verif.Forall(func(x T) bool { return !(has(s, x) && verif.Visited(s, x)) || inPrefix(res, len(res), x) }) &&
+		verif.Forall(func(x T) bool { return has(s, x) == verif.Old(func() bool { return has(s, x) }) })
+}
+
+//verif:contract (Set).DeleteAll
+//verif:prop C03
+func ctDeleteAll[T comparable](s Set[T], items []T) {
+	r := s.DeleteAll(items...)
+	verif.Ensures("returns-receiver", verif.Same(r, s))
+	verif.Ensures("removes-exactly-items", verif.Forall(func(x T) bool {
+		return has(s, x) == (verif.Old(func() bool { return has(s, x) }) && !inPrefix(items, len(items), x))
+	}))
+}
+
+//verif:invariant (Set).DeleteAll 1
+func invDeleteAll[T comparable](s Set[T], items []T, rangeindex int) bool {
+	return rangeindex < len(items) && verif.Forall(func(x T) bool {
+		return has(s, x) == (verif.Old(func() bool { return has(s, x) }) && !inPrefix(items, rangeindex+1, x))
+	})
+}
